@@ -3,7 +3,7 @@
    preamble + declarations (predicate_i, type_symbol_i, type_function_constant_i) +
    symbol_order_i axioms + the problem's named formulas. *)
 From Coq Require Import List Ascii String ZArith NArith Bool.
-From Anthem Require Import Base.ISet Base.Fresh Syntax.Fol Syntax.Tff Sem.TffSem Model.Problem
+From Anthem Require Import Base.ISet Base.Fresh Syntax.Fol Syntax.Tff Sem.TffSem Sem.TffWt Model.Problem
   Model.TptpPrint Gen.Preamble.
 Import ListNotations.
 Open Scope list_scope.
@@ -85,9 +85,7 @@ Definition problem_display (p : problem) : option string :=
   end.
 
 (* ---------- the same file as a structured TFF problem ---------- *)
-Record tff_decl := mkdecl { d_name : string; d_ident : string; d_sig : tff_sig }.
-Record tff_named := mknamed { n_name : string; n_role : prole; n_formula : tff_formula }.
-Record tff_problem := mktp { tp_decls : list tff_decl; tp_formulas : list tff_named }.
+Definition tff_role_of (r : prole) : tff_role := match r with PAxiom => RoleAxiom | PConjecture => RoleConjecture end.
 
 Definition predicate_decl (i : N) (p : pred) : tff_decl :=
   mkdecl ("predicate_" ++ nat_str i) (psym p) (SigPred (repeat TyGeneral (parity p))).
@@ -96,16 +94,16 @@ Definition symbol_decl (i : N) (s : string) : tff_decl :=
 Definition fconst_decl (i : N) (c : fconst) : tff_decl :=
   mkdecl ("type_function_constant_" ++ nat_str i) (fcname c ++ suffix (fcsort c)) (SigFun [] (ty_of (fcsort c))).
 Definition symbol_order_named (i : N) (ab : string * string) : tff_named :=
-  mknamed ("symbol_order_" ++ nat_str i) PAxiom (tff_of_formula (symbol_order_formula ab)).
+  mknamed ("symbol_order_" ++ nat_str i) RoleAxiom (tff_of_formula (symbol_order_formula ab)).
 
 Definition emit (p : problem) : tff_problem :=
   mktp (map (fun d => mkdecl (fst (fst d)) (snd (fst d)) (snd d)) preamble_decls
         ++ mapi_from predicate_decl 0 (problem_predicates p)
         ++ mapi_from symbol_decl 0 (problem_symbols p)
         ++ mapi_from fconst_decl 0 (problem_function_constants p))%list
-       (map (fun a => mknamed (fst a) PAxiom (snd a)) preamble_formulas
+       (map (fun a => mknamed (fst a) RoleAxiom (snd a)) preamble_formulas
         ++ mapi_from symbol_order_named 0 (windows2 (sort_strings (problem_symbols p)))
-        ++ map (fun a => mknamed (pf_name a) (pf_role a) (tff_of_formula (pf_formula a))) (pb_formulas p))%list.
+        ++ map (fun a => mknamed (pf_name a) (tff_role_of (pf_role a)) (tff_of_formula (pf_formula a))) (pb_formulas p))%list.
 
 (* ---------- IdentClass: the identifier shapes that break TFF well-formedness ----------
    Evaluated on the problem that is printed (i.e. after rename_conflicting_symbols and
@@ -118,9 +116,6 @@ Definition emit (p : problem) : tff_problem :=
      (general, c__infimum__, p__less__, ...), a renamed constant `p__s` meeting an existing
      predicate or constant `p__s`;
    - a formula name that is not a lower_word after the `formula_<i>_` prefix was added. *)
-Fixpoint nodupb (l : list string) : bool :=
-  match l with [] => true | x :: l' => negb (existsb (String.eqb x) l') && nodupb l' end.
-
 Fixpoint formula_vars_ok (f : formula) : bool :=
   match f with
   | FAtomic _ => true
@@ -140,4 +135,4 @@ Definition ident_ok (p : problem) : bool :=
   && forallb (fun a => formula_vars_ok (pf_formula a)) (pb_formulas p)
   && forallb (fun a => is_lower_word (pf_name a)) (pb_formulas p).
 
-(* EXTRACT: problem_display emit ident_ok symbol_order sort_strings windows2 tff_problem *)
+(* EXTRACT: problem_display emit ident_ok symbol_order sort_strings windows2 *)
